@@ -185,6 +185,11 @@ def run(ctx):
     blocks = [(random_block(False), False) for _ in range(60 if q else 1500)] + [(random_block(True), True) for _ in range(20 if q else 500)]
     # a block with a 65535-byte value inside ~70 KB, and real sample config blocks
     blocks.append((rec(1, 1, b"\x00\x08") + rec(200, 3, bytes(65535)) + rec(2, 1, b"\x01\xbb") + b"\x00\x00", False))
+    # over-long User-Agents whose continuation is longer than any read-ahead buffer (8 KiB, 64 KiB)
+    for cont in ([8193, 70001] if q else [8191, 8192, 8193, 16385, 65536, 70001, 300001]):
+        tail = bytes(rng.randrange(1, 256) for _ in range(cont))
+        blocks.append((rec(1, 1, b"\x00\x08") + rec(9, 3, bytes(rng.randrange(1, 256) for _ in range(128))) + tail + b"\x00" + b"\x00" * (1 if cont % 2 else 0)
+                       + rec(2, 1, b"\x01\xbb") + rec(37, 2, b"\x00\x00\x00\x07") + b"\x00\x00", False))
     samples = ["4f571c0bc97c20eefc58fa3faf32148d.bin.zip", "a1573fe60c863ed40fffe54d377b393a.bin.zip", "5a197a8bb628a2555f5a86c51b85abd7.bin.zip"]
     for nm in samples[: 1 if q else 3]:
         try:
@@ -195,6 +200,42 @@ def run(ctx):
             blocks.append((bytes(cfg.config_block), True))
         except Exception as e:  # sample problems are not C02's subject
             ctx.notes.setdefault("sample_errors", []).append(f"{nm}: {e!r}")
+    # iter_settings reads from wherever the file object stands: the same records from bytes, from a stream at offset 0, from a
+    # stream positioned behind a prefix and from a real file at an offset
+    import io
+    import os
+    import tempfile
+
+    def recs_of(it):
+        return [(int(s.index.value), int(s.type.value), int(s.length), bytes(s.value)) for s in it]
+
+    tmpd = tempfile.mkdtemp(prefix="vt-c02-")
+    try:
+        for block, _wp in blocks[:: max(1, len(blocks) // (25 if q else 200))] + blocks[-6:]:
+            ref = core.guarded(lambda: recs_of(beacon.iter_settings(block)), seconds=10)
+            if ref[0] != "ok":
+                continue
+            for plen in (0, 1, 7, 1000):
+                prefix = bytes(rng.randrange(256) for _ in range(plen))
+                fh = io.BytesIO(prefix + block)
+                fh.seek(plen)
+                got = core.guarded(lambda: recs_of(beacon.iter_settings(fh)), seconds=10)
+                ctx.evaluations += 1
+                if got != ref:
+                    viol("records_from_positioned_stream", {"prefix_len": plen, "block_len": len(block), "got": str(got)[:200], "expected_recs": len(ref[1])})
+            fp = os.path.join(tmpd, "b.bin")
+            with open(fp, "wb") as fw:
+                fw.write(b"P" * 1000 + block)
+            with open(fp, "rb") as fr:
+                fr.seek(1000)
+                got = core.guarded(lambda: recs_of(beacon.iter_settings(fr)), seconds=10)
+            ctx.evaluations += 1
+            if got != ref:
+                viol("records_from_positioned_stream", {"prefix_len": 1000, "real_file": True, "block_len": len(block), "got": str(got)[:200], "expected_recs": len(ref[1])})
+    finally:
+        import shutil
+
+        shutil.rmtree(tmpd, ignore_errors=True)
     for block, with_pretty in blocks:
         o = observe(beacon, block)
         ctx.evaluations += 1
